@@ -6,13 +6,15 @@ COLS = {0: "LIST", 1: "SET", 3: "VECTOR", 4: "NAIVE_VECTOR", 5: "SMALL_VECTOR", 
 DEFAULT = 4  # Default_zigzag_options::column_type
 
 
-def _run(col, universe, depth, valdepth=0, fedepth=0, seed=None, shards=1, timeout=None, prefix=4):
+def _run(col, universe, depth, valdepth=0, fedepth=0, seed=None, shards=1, timeout=None, prefix=4, mindim=0):
     r = {"unit": "c07_col%d" % col,
          "args": ["--universe", universe, "--depth", str(depth), "--valdepth", str(valdepth), "--fedepth", str(fedepth),
                   "--prefix", str(prefix)],
          "shards": shards}
     if seed:
         r["args"] += ["--seed-ops", seed]
+    if mindim:
+        r["args"] += ["--min-op-dim", str(mindim)]
     if timeout:
         r["timeout"] = timeout
     return r
@@ -32,6 +34,16 @@ def register(CHECKS, H):
         quick.append(_run(c, "two_triangles", 3, fedepth=3, seed="allrev"))
         quick.append(_run(c, "tetra_skeleton", 3, fedepth=3, seed="all"))
         quick.append(_run(c, "square", 5, fedepth=5, seed="all"))
+    # forward arrows whose boundary spreads over >= 4 unpaired chains with births not aligned with the pivots (only after
+    # removals): bouquets of loops with discs glued on sums of loops, seeded with the vertex and the loops; edge
+    # insertions / removals on 4 fixed vertices (complete graph), where an edge merges classes whose births were re-assigned
+    for c in sorted(COLS):
+        quick.append(_run(c, "bouquet4w", 4, fedepth=4, seed="dim01"))
+        quick.append(_run(c, "bouquet4", 3, fedepth=3, seed="dim01"))
+        quick.append(_run(c, "k4", 6, fedepth=4, seed="dim0", mindim=1, shards=2, prefix=3))
+    quick.append(_run(DEFAULT, "bouquet4", 4, seed="dim01", shards=2, prefix=2))
+    quick.append(_run(DEFAULT, "bouquet5w", 4, fedepth=4, seed="dim01"))
+    quick.append(_run(DEFAULT, "two_triangles", 5, fedepth=5, seed="dim0"))
     for c in (DEFAULT, 8):
         quick.append(_run(c, "square", 6, fedepth=6, shards=2))
         quick.append(_run(c, "two_triangles", 6, fedepth=6, shards=2))
@@ -58,6 +70,21 @@ def register(CHECKS, H):
         thorough.append(_run(c, "two_triangles", 5, fedepth=5, seed="allrev", timeout=3000))
         thorough.append(_run(c, "tetra_skeleton", 5, fedepth=5, seed="all", timeout=3000))
         thorough.append(_run(c, "tetra_skeleton", 4, fedepth=4, seed="allrev", timeout=3000))
+        # many unpaired chains in one boundary, births not aligned with pivots
+        thorough.append(_run(c, "bouquet4w", 6, fedepth=5, seed="dim01", timeout=3000))
+        thorough.append(_run(c, "bouquet4", 4, fedepth=4 if d else 3, seed="dim01", shards=2, prefix=2, timeout=3000))
+        thorough.append(_run(c, "bouquet5w", 5, fedepth=5, seed="dim01", timeout=3000))
+        deep = c in (DEFAULT,) + DEEP
+        thorough.append(_run(c, "k4", 7 if deep else 6, fedepth=5, seed="dim0", mindim=1, shards=3 if deep else 1, prefix=3,
+                             timeout=3000))
+        if c in (DEFAULT,) + DEEP:
+            # from the empty complex to the depth of the 9-operation bouquet witness
+            thorough.append(_run(c, "bouquet4w", 9, fedepth=7 if d else 0, shards=6, timeout=3000))
+    thorough.append(_run(DEFAULT, "bouquet4", 5, seed="dim01", shards=6, prefix=2, timeout=3000))
+    thorough.append(_run(DEFAULT, "k4", 6, fedepth=6, seed="dim0", shards=3, prefix=3, timeout=3000))
+    thorough.append(_run(DEFAULT, "two_triangles", 6, fedepth=6, seed="dim0", shards=2, prefix=3, timeout=3000))
+    thorough.append(_run(DEFAULT, "k5", 6, seed="dim0", mindim=1, shards=6, prefix=3, timeout=3000))
+    thorough.append(_run(DEFAULT, "cycle6", 7, seed="dim0", mindim=1, shards=4, prefix=3, timeout=3000))
 
     CHECKS["C07"] = {
         "units": units,
@@ -73,7 +100,11 @@ def register(CHECKS, H):
                        "triangle, up to depth 6 (thorough: 8 / 7) over a square with one 4-sided 2-cell and over two triangles "
                        "sharing an edge, up to depth 7 (thorough: 10 / 9) over a small CW universe with loops and a sphere cell "
                        "(general, non-simplicial cells), and every history of depth <= 3..5 (thorough: 4..8) that starts from the "
-                       "full triangle / square / two-triangle / hollow-tetrahedron complex, is executed on the real classes for "
+                       "full triangle / square / two-triangle / hollow-tetrahedron complex, plus (forward arrows over >= 4 unpaired chains) every history of depth <= 4 "
+                       "(thorough: 6) after a vertex and four loops of a bouquet with discs glued on sums of loops (<= 3..4 / 4..5 "
+                       "with all 15 discs; thorough also from the empty complex to depth 9, and five loops), and every sequence of "
+                       "<= 6 (thorough: 7) edge insertions / removals / identities on the 4 vertices of a complete graph (thorough: "
+                       "also with vertex removals, K5 and a 6-cycle), is executed on the real classes for "
                        "all 8 column types; after the last step of every history the streamed finite intervals, the currently "
                        "open ones and the dimension labels are compared as multisets with the interval decomposition computed "
                        "from the definition; the two filtered front-ends are compared on the same histories with every "
@@ -96,19 +127,24 @@ def register(CHECKS, H):
                       "monotone value sequence over {0,1,2} up to depth 5 and 3 fixed sequences up to depth 7; seeded with the "
                       "full complex (8 column types): two triangles +4 (and +3 after the reverse insertion order), hollow "
                       "tetrahedron +3, square +5; from empty for 2 column types: square, two triangles depth <= 6, CW "
-                      "universe depth <= 7"),
+                      "universe depth <= 7; bouquet of 4 loops seeded with vertex + loops: 3 discs +4, all 15 discs +3 (8 column "
+                      "types) and +4 (default), 5 loops +4 (default); complete graph K4 seeded with its vertices, edge "
+                      "operations only, +6 (8 column types); two triangles seeded with the 4 vertices +5 (default)"),
             "thorough": ("triangle depth <= 10 (3 784 265 histories) for NAIVE_VECTOR, SET, INTRUSIVE_LIST and <= 9 for the "
                          "other 5 column types; filtered front-ends to depth 9 / all value sequences to depth 6 for the default "
                          "column type (7 / 5 for the others); square and two triangles depth <= 8 (default) / 7, CW depth <= "
                          "10 / 9; seeded with the full complex, all 8 column types: triangle +8, square +7, two triangles +6 "
-                         "(+5 reverse order), hollow tetrahedron +5 (+4 reverse order)"),
+                         "(+5 reverse order), hollow tetrahedron +5 (+4 reverse order); bouquet of 4 loops, 3 discs: from empty "
+                         "depth <= 9 (3 column types) and seeded +6; all 15 discs seeded +4 (8 column types) / +5 (default); 5 loops "
+                         "seeded +5; K4 on seeded vertices: edge operations only +7 (3 column types) / +6 (the other 5), all operations +6 (default); "
+                         "K5 edge operations +6, 6-cycle edge operations +7, two triangles on seeded vertices +6 (default)"),
         },
         "assumptions": [
             "documented preconditions only: a cell is inserted when absent and all its faces are present, removed when present "
             "and maximal; boundaries of the plain class listed by increasing arrow number; filtration values monotone "
             "(non-decreasing or non-increasing) small integers; cell keys distinct",
             "interval (dim,b,d) = class alive in the complexes after operations b..d-1 (convention of the repository's unit test)",
-            "small scope: universes of at most 14 cells, depth bounds as stated; Z_2 coefficients (the only ones the class offers)",
+            "small scope: universes of at most 20 cells, depth bounds as stated; Z_2 coefficients (the only ones the class offers)",
         ],
         "runs": {"quick": quick, "thorough": thorough},
     }
